@@ -19,7 +19,9 @@ def cfgOf (regok : Bool) : RefCfg :=
 
 /-- the documented grammar (specification side) -/
 def specCfgOf (regok : Bool) : RefCfg :=
-  { validReg := fun _ => regok, repoRe := Spec.Grammar.repository, tagRe := Spec.Grammar.tag, algs := Spec.Grammar.digestAlgs }
+  -- the registry is a URL authority without user-info (and an authority never holds a query
+  -- or a fragment); what else makes a valid authority is net/url's business (`regok`)
+  { validReg := fun reg => regok && !(reg.any fun ch => ch == '@' || ch == '?' || ch == '#'), repoRe := Spec.Grammar.repository, tagRe := Spec.Grammar.tag, algs := Spec.Grammar.digestAlgs }
 
 def showRef (r : Ref) : String :=
   "ok " ++ String.ofList r.registry ++ "|" ++ String.ofList r.repository ++ "|" ++ String.ofList r.reference
